@@ -57,6 +57,7 @@ var Mutants = []Mutant{
 	{ID: "comment-runs-past-end", Props: []string{"C03"}, Rule: "R-PROGRESS", File: "pkg/lexer/lexer.go", Find: "return r != 0 && r != '\\n' })", Replace: "return r != '\\n' })", Expect: "readWhile#loop[1]:eof-exit", Describe: "a comment on the last line without newline never ends"},
 	{ID: "unknown-func-no-skip", Props: []string{"C03"}, Rule: "R-PROGRESS", File: "pkg/parser/parser.go", Find: "\t\tp.appendError(fmt.Sprintf(\"unknown function %q\", p.cur.Literal))\n\t\tp.advancePastNL()\n\t\treturn nil", Replace: "\t\tp.appendError(fmt.Sprintf(\"unknown function %q\", p.cur.Literal))\n\t\treturn nil", Expect: "#loop[1]:progress", Describe: "an unknown function name is reported for ever"},
 	{ID: "pos-reset-in-statement", Props: []string{"C03"}, Rule: "R-PROGRESS", File: "pkg/parser/parser.go", Find: "\tp.appendError(\"unexpected input \" + p.cur.Format())\n\tp.advancePastNL()\n\treturn nil", Replace: "\tp.appendError(\"unexpected input \" + p.cur.Format())\n\tp.advanceTo(p.pos)\n\tp.advancePastNL()\n\treturn nil", Expect: "parseStatement#reposition", Describe: "the position is reset from inside the statement loop"},
+	{ID: "range-extra-args-dropped", Props: []string{"C05", "C04", "C06"}, Rule: "R-LISTUSE", File: "pkg/parser/parser.go", Find: "\tif len(nodes) > 1 && t.Name != NUM {\n\t\tp.appendError(\"range with more than one argument must be num, found \" + t.String())\n\t\treturn nil\n\t}\n", Replace: "", Expect: "parseForStatement#list", Describe: "extra operands after a string/array/map range are accepted and dropped"},
 	// C05 / C06
 	{ID: "break-no-eol", Props: []string{"C05", "C06"}, Rule: "R-EOLSTATE", File: "pkg/parser/parser.go", Find: "\tp.advance() // advance past BREAK token\n\tp.assertEOL()\n", Replace: "\tp.advance() // advance past BREAK token\n", Expect: "parseBreakStatement#skip", Describe: "text after break is skipped"},
 	{ID: "if-end-no-eol", Props: []string{"C05", "C06"}, Rule: "R-EOLSTATE", File: "pkg/parser/parser.go", Find: "\tp.assertEnd()\n\tp.advance()\n\tp.assertEOL()\n\tp.recordComment(ifStmt)", Replace: "\tp.assertEnd()\n\tp.advance()\n\tp.recordComment(ifStmt)", Expect: "parseIfStatement#skip", Describe: "text after the end of an if is skipped"},
